@@ -209,6 +209,10 @@ func (g *Gen) selectableFields(typ *ast.Definition) []*ast.FieldDefinition {
 		if strings.HasPrefix(f.Name, "__") {
 			continue
 		}
+		if strings.HasSuffix(f.Name, "Echo") {
+			// echo fields (they return their first argument) belong to dedicated tests
+			continue
+		}
 		if g.Opt.SkipFields[typ.Name+"."+f.Name] {
 			continue
 		}
